@@ -273,7 +273,7 @@ func resumeOrder(o *out, c *hx.Ctx, w int) {
 	sub.isClosed(long)
 	before := steps(sub)
 	waitFor(long, func() bool { return b.termEntered("rs", 1) }) // the broker knows the subscriber is gone
-	feed(3)                                                       // published while the subscriber is away
+	feed(3)                                                      // published while the subscriber is away
 	// expected retransmissions: everything transmitted and not completely acknowledged, in first-transmission order
 	var want []string
 	seen := map[int]bool{}
